@@ -114,7 +114,17 @@ func c10Proj(r *release.Release) string {
 		}
 	}
 	sort.Strings(ls)
-	return string(nb) + "|" + strings.Join(ls, ",")
+	// the instants themselves, not Helm's own rendering of them (which the JSON form above goes through)
+	var ts []string
+	if r.Info != nil {
+		ts = append(ts, fmt.Sprint(r.Info.FirstDeployed.UnixNano(), r.Info.LastDeployed.UnixNano(), r.Info.Deleted.IsZero(), r.Info.Deleted.UnixNano()))
+	}
+	for _, h := range r.Hooks {
+		if h != nil {
+			ts = append(ts, fmt.Sprint(h.LastRun.StartedAt.UnixNano(), h.LastRun.CompletedAt.UnixNano()))
+		}
+	}
+	return string(nb) + "|" + strings.Join(ls, ",") + "|t=" + strings.Join(ts, ";")
 }
 
 type c10Backend struct {
